@@ -43,6 +43,7 @@ const ChainID = "panasim-1"
 const NumAccounts = 10
 const NumDidKeys = 12
 const FeeDenom = "umed"
+const WhaleDenom = "uwhale"
 const BurnAddress = "panacea100000000000000000000000000000000nqmafp" // documented burn address
 
 type Account struct {
@@ -154,6 +155,11 @@ func (e *Env) BuildGenesis(a *app.App, gs *GenesisSpec) ([]byte, *Model) {
 		gaccs = append(gaccs, authtypes.NewBaseAccount(acc.Addr, acc.Priv.PubKey(), acc.Num, 0))
 		cs := sdk.NewCoins(sdk.NewInt64Coin(FeeDenom, 1_000_000_000_000_000))
 		for _, d := range gs.ExtraDenoms {
+			if d == WhaleDenom {
+				huge, _ := sdk.NewIntFromString("1000000000000000000000000000000000000000000") // 10^42: amounts far beyond int64/uint64
+				cs = cs.Add(sdk.NewCoin(d, huge))
+				continue
+			}
 			cs = cs.Add(sdk.NewInt64Coin(d, 1_000_000_000_000))
 		}
 		bals = append(bals, banktypes.Balance{Address: acc.Addr.String(), Coins: cs})
